@@ -373,8 +373,48 @@ def run_queue(ctx):
     ]
 
 
+def run_once(ctx):
+    """The ledger side of "in index order, each at most once": concurrent producers offering the same block to the real
+    Blockchain.AddBlock (spec/bqueue/LedgerOnce.tla, harness/c20sync TestOnce, judge LedgerOnceTrace)."""
+    q = ctx.quick()
+    ctx.tlc_mc(SUB, "LedgerOnce.tla", "MC_once.cfg", timeout=600)
+    try:
+        ctx.tlc_mc(SUB, "LedgerOnce.tla", "MC_once_bug.cfg", timeout=300)
+        raise vlib.Inconclusive("named deviation CheckOutsideLock not detected by LedgerOnce")
+    except vlib.ModelError:
+        ctx.extra["once_model_selftests"] = 1
+    res = ctx.go_driver("c20sync", "TestOnce", env={"VERIF_ONCE_WORLDS": 2 if q else 12, "VERIF_ONCE_BLOCKS": 40 if q else 120}, timeout=1800)
+    ctx.absorb(res)
+    trace = os.path.join(res["_out"], "trace.ndjson")
+    events = vlib.read_ndjson(trace)
+    fails = ctx.trace_judge(SUB, "LedgerOnceTrace.tla", "Trace_Once.cfg", trace, timeout=600)
+    ctx.traces_validated += res.get("traces", 0)
+    ctx.extra["once_rounds"] = sum(1 for e in events if e["event"] == "round")
+    for f in fails:
+        ev = events[f["line"] - 1]
+        for w in sorted(f["what"]):
+            ctx.violation({"kind": w, "part": "ledger-once", "txless": ev.get("ntx") == 0},
+                          {"what": "%s false when %s copies of block %s (+%s stale) were offered to AddBlock concurrently" % (
+                              w, ev.get("copies"), ev.get("h"), ev.get("stale")), "event": ev, "line": f["line"]})
+    if not fails:   # binding self-test: a doubled store must be rejected
+        bad = [dict(e) for e in events[:6]]
+        for e in bad:
+            if e["event"] == "round":
+                e["stored"] = 2
+                break
+        path = os.path.join(ctx.work, "selftest-once.ndjson")
+        vlib.write_ndjson(path, bad)
+        st, tr = ctx.states, ctx.transitions
+        f2 = ctx.trace_judge(SUB, "LedgerOnceTrace.tla", "Trace_Once.cfg", path, timeout=300)
+        ctx.states, ctx.transitions = st, tr
+        if not any("StoredExactlyOnce" in f["what"] for f in f2):
+            raise vlib.Inconclusive("ledger-once binding self-test: doubled store not rejected")
+        ctx.extra["once_binding_selftests"] = 1
+
+
 def run(ctx):
     run_queue(ctx)
+    run_once(ctx)
     p = os.path.join(os.path.dirname(os.path.abspath(__file__)), "c20_statesync.py")
     if os.path.exists(p):
         spec = importlib.util.spec_from_file_location("check_c20_statesync", p)
